@@ -3,7 +3,8 @@ import Mkdb.Proofs.Bin
 /-!
 C14, part 4: which errors the write paths can return; CREATE TABLE.
 
-`createTable` pre-validates: existence, column lengths (`intOutOfRange`), and - `checkCatalogRows` -
+`createTable` pre-validates: existence, column lengths (`intOutOfRange`) and repeated column names
+(`fieldAmbiguous`) - `checkFieldsFrom` -, and - `checkCatalogRows` -
 that the `sys_pages` row and every `sys_schema` row of the new table encode and fit a page cell.
 A pre-validation failure returns in the store the (read-only) catalog lookup left.  After a passed
 pre-validation the body calls `btInsert` with exactly the buffers that were measured (the
@@ -351,14 +352,70 @@ theorem createTable_exists_err (fields : List FieldDef) (name : Bytes) (flushOrd
   refine ⟨?_, (ReadOnly.relationOffset name).ok hf h⟩
   unfold createTable; rw [h]
 
+/-- the per-column checks can only object with these two errors -/
+theorem checkFieldsFrom_some {seen : List String} {fields : List FieldDef} {e : SErr}
+    (h : checkFieldsFrom seen fields = some e) : e = .intOutOfRange ∨ e = .fieldAmbiguous := by
+  induction fields generalizing seen with
+  | nil => cases h
+  | cons fd rest ih =>
+    unfold checkFieldsFrom at h
+    split at h
+    · cases h; exact .inl rfl
+    · split at h
+      · cases h; exact .inr rfl
+      · exact ih h
+
+/-- a column length outside `int32` makes the per-column checks object -/
+theorem checkFieldsFrom_of_len {seen : List String} {fields : List FieldDef}
+    (hlen : fields.any (fun fd => fd.len > 2147483647 || fd.len < -2147483648) = true) :
+    ∃ e, checkFieldsFrom seen fields = some e := by
+  induction fields generalizing seen with
+  | nil => cases hlen
+  | cons fd rest ih =>
+    unfold checkFieldsFrom
+    split
+    · exact ⟨_, rfl⟩
+    · split
+      · exact ⟨_, rfl⟩
+      · rename_i h1 _
+        rw [List.any_cons, Bool.or_eq_true] at hlen
+        rcases hlen with hl | hl
+        · exact absurd hl h1
+        · exact ih hl
+
+/-- passed per-column checks: every length is inside `int32` -/
+theorem checkFieldsFrom_none_len {seen : List String} {fields : List FieldDef}
+    (h : checkFieldsFrom seen fields = none) :
+    fields.any (fun fd => fd.len > 2147483647 || fd.len < -2147483648) = false := by
+  cases hany : fields.any (fun fd => fd.len > 2147483647 || fd.len < -2147483648) with
+  | false => rfl
+  | true =>
+    obtain ⟨e, he⟩ := checkFieldsFrom_of_len (seen := seen) hany
+    rw [h] at he; cases he
+
+/-- whatever the per-column checks object to (a column length outside `int32`, a column name used
+twice), `createTable` returns that error in the store the catalog lookup left -/
+theorem createTable_fields_err (fields : List FieldDef) (name : Bytes) (flushOrder : List Nat)
+    (doFlush : Bool) (s s1 : Store) (e : SErr) (hf : Filed s)
+    (h : relationOffset name s = .err .tableNotExist s1)
+    (hfld : checkFieldsFrom [] fields = some e) :
+    createTable fields name flushOrder doFlush s = .err e s1 ∧ Filed s1 ∧ SameData s s1 := by
+  refine ⟨?_, (ReadOnly.relationOffset name).err hf h⟩
+  unfold createTable; rw [h]; simp only [hfld]
+
 theorem createTable_length_err (fields : List FieldDef) (name : Bytes) (flushOrder : List Nat)
     (doFlush : Bool) (s s1 : Store) (hf : Filed s)
     (h : relationOffset name s = .err .tableNotExist s1)
     (hlen : fields.any (fun fd => fd.len > 2147483647 || fd.len < -2147483648) = true) :
-    createTable fields name flushOrder doFlush s = .err .intOutOfRange s1 ∧
+    (createTable fields name flushOrder doFlush s = .err .intOutOfRange s1 ∨
+      createTable fields name flushOrder doFlush s = .err .fieldAmbiguous s1) ∧
       Filed s1 ∧ SameData s s1 := by
-  refine ⟨?_, (ReadOnly.relationOffset name).err hf h⟩
-  unfold createTable; rw [h]; simp only [hlen, if_true]
+  obtain ⟨e, he⟩ := checkFieldsFrom_of_len (seen := []) hlen
+  obtain ⟨h1, h2⟩ := createTable_fields_err fields name flushOrder doFlush s s1 e hf h he
+  refine ⟨?_, h2⟩
+  rcases checkFieldsFrom_some he with rfl | rfl
+  · exact .inl h1
+  · exact .inr h1
 
 /-- 1. Whatever `checkCatalogRows` objects to (a catalog row that does not encode, or is too long
 for a page cell - an over-long table or column name), `createTable` returns that error in the store
@@ -366,21 +423,21 @@ the catalog lookup left: well filed, same data. -/
 theorem createTable_prevalidation_err (fields : List FieldDef) (name : Bytes)
     (flushOrder : List Nat) (doFlush : Bool) (s s1 : Store) (e : SErr) (hf : Filed s)
     (h : relationOffset name s = .err .tableNotExist s1)
-    (hlen : fields.any (fun fd => fd.len > 2147483647 || fd.len < -2147483648) = false)
+    (hfld : checkFieldsFrom [] fields = none)
     (hchk : checkCatalogRows fields name = some e) :
     createTable fields name flushOrder doFlush s = .err e s1 ∧ Filed s1 ∧ SameData s s1 := by
   refine ⟨?_, (ReadOnly.relationOffset name).err hf h⟩
-  unfold createTable; rw [h]; simp only [hlen, hchk]
-  rfl
+  unfold createTable; rw [h]; simp only [hfld, hchk]
 
 /-- The exact shape of an error of `createTable`: a pre-validation refusal (name taken or catalog
-unreadable; column length outside `int32`; a catalog row `checkCatalogRows` rejects) - nothing
+unreadable; column length outside `int32`; a column name used twice; a catalog row `checkCatalogRows` rejects) - nothing
 changed; or the pre-validation passed and the body failed with one of `BodyErr`, after the root
 page of the new table was allocated. -/
 theorem createTable_err_cases (fields : List FieldDef) (name : Bytes) (flushOrder : List Nat)
     (doFlush : Bool) (s : Store) (e : SErr) (s' : Store) (hf : Filed s)
     (h : createTable fields name flushOrder doFlush s = .err e s') :
-    ((e = .tableAlreadyExist ∨ e = .intOutOfRange ∨ checkCatalogRows fields name = some e) ∧
+    ((e = .tableAlreadyExist ∨ e = .intOutOfRange ∨ e = .fieldAmbiguous ∨
+        checkCatalogRows fields name = some e) ∧
       Filed s' ∧ SameData s s') ∨
     (∃ s1, relationOffset name s = .err .tableNotExist s1 ∧ Filed s1 ∧ SameData s s1 ∧
       checkCatalogRows fields name = none ∧
@@ -390,11 +447,15 @@ theorem createTable_err_cases (fields : List FieldDef) (name : Bytes) (flushOrde
   · rename_i s1 heq
     obtain ⟨f1, d1⟩ := (ReadOnly.relationOffset name).err hf heq
     split at h
-    · cases h; exact .inl ⟨.inr (.inl rfl), f1, d1⟩
+    · rename_i e1 hfld
+      cases h
+      rcases checkFieldsFrom_some hfld with rfl | rfl
+      · exact .inl ⟨.inr (.inl rfl), f1, d1⟩
+      · exact .inl ⟨.inr (.inr (.inl rfl)), f1, d1⟩
     · split at h
       · rename_i e1 hchk
         cases h
-        exact .inl ⟨.inr (.inr hchk), f1, d1⟩
+        exact .inl ⟨.inr (.inr (.inr hchk)), f1, d1⟩
       · rename_i hchk
         exact .inr ⟨s1, heq, f1, d1, hchk, h,
           createBody_errIn fields name flushOrder doFlush hchk _ _ _ h⟩
@@ -418,16 +479,17 @@ theorem createTable_err_of_not_bodyErr (fields : List FieldDef) (name : Bytes)
   · exact absurd hb he
 
 /-- D. CREATE TABLE refused because the table exists (or the catalog is unreadable), because a
-column length is outside `int32`, because a table or column name is too long (`rowTooLarge`), or
-with `typeMismatch` / `colCountMismatch`: nothing changed. -/
+column length is outside `int32`, because a column name is used twice (`fieldAmbiguous`), because a
+table or column name is too long (`rowTooLarge`), or with `typeMismatch` / `colCountMismatch`:
+nothing changed. -/
 theorem createTable_err (fields : List FieldDef) (name : Bytes) (flushOrder : List Nat)
     (doFlush : Bool) (s : Store) (e : SErr) (s' : Store) (hf : Filed s)
     (h : createTable fields name flushOrder doFlush s = .err e s')
     (he : e = .tableAlreadyExist ∨ e = .intOutOfRange ∨ e = .rowTooLarge ∨ e = .typeMismatch ∨
-          e = .colCountMismatch) : Filed s' ∧ SameData s s' := by
+          e = .colCountMismatch ∨ e = .fieldAmbiguous) : Filed s' ∧ SameData s s' := by
   apply createTable_err_of_not_bodyErr fields name flushOrder doFlush s e s' hf h
   unfold BodyErr
-  rcases he with rfl | rfl | rfl | rfl | rfl <;> intro hb <;>
+  rcases he with rfl | rfl | rfl | rfl | rfl | rfl <;> intro hb <;>
     rcases hb with hb | hb | hb | hb | hb <;> cases hb
 
 /-! ### the former counterexample, now a positive example -/
